@@ -37,7 +37,7 @@ META = {
                   "compressor (zlib window bits 9..15, levels 1/3/6/9, five strategies - i.e. every CMF/FLEVEL header byte pair - and bzip2 block sizes 1..9), "
                   "single-unit/sectored storage, hash-table size incl. full tables, deleted slots, hi-block table, pre-archive data with and "
                   "without user data header, a same-name entry of another locale, and V3 68-byte headers over classic tables): the reference decodes every library-written archive and the "
-                  "library reads every reference-written archive under four spellings. The reference is model-checked for "
+                  "library reads every reference-written archive under four spellings; files the builder adds under non-neutral locales (same name under two locales, 0x0409/0x0807) are looked up by (name, locale) and their hash-entry locale/platform fields compared. The reference is model-checked for "
                   "RefRead(RefWrite(f,c)) = f on 8/16-byte sectors, and each historical deviation of the library is shown to break that round trip.",
     "level_note": "Trusted: TLC's evaluation of MpqFormat.tla/MpqCrypto.tla/Word32.tla; CPython's zlib/bz2/hashlib. Subset: classic hash/block "
                   "tables of V1/V2 headers (direction 2 also V3 headers without HET/BET; V4 not), archives <= ~17 KB (hi-block entries are always 0), no HET/BET, no implode/huffman/ADPCM/LZMA/sparse "
@@ -154,6 +154,11 @@ def trace_dir1(arch_path, decoded):
                         "std": inflate_variant(df["std"]), "rawsame": df["rawsame"],
                         "devs": [{"labels": "+".join(dv["labels"]), "v": inflate_variant(dv["v"]), "rawsame": dv["rawsame"]}
                                  for dv in df["devs"]]})
+        for lf, dl in zip(a.get("locfiles", []), d.get("locfiles", [])):
+            nfiles += 1
+            evs.append({"ev": "RefLocFile", "case": case, "name": lf["name"], "locale": lf["locale"], "want": {"len": lf["len"], "tok": lf["tok"]},
+                        "fsize": dl["std"]["fsize"], "flags": dl["std"]["flags"], "entlocale": dl["std"]["locale"], "entplatform": dl["std"]["platform"],
+                        "std": inflate_variant(dl["std"]), "rawsame": dl["rawsame"]})
         for ab, res in zip(a["absent"], d["absent"]):
             evs.append({"ev": "RefAbsent", "case": case, "name": ab["name"], "res": res})
         if d["listfile"]:
@@ -164,7 +169,8 @@ def trace_dir1(arch_path, decoded):
                 content = b"".join(bytes(s["p"]) if s["m"] == -1 else (zlib.decompress(bytes(s["p"])) if s["m"] == 2 else bz2.decompress(bytes(s["p"])))
                                    for s in lf["sectors"])
             lnames = sorted(x for x in content.decode("utf-8", errors="replace").replace("\r", "\n").split("\n") if x)
-            evs.append({"ev": "RefList", "case": case, "res": iv["res"], "names": lnames})
+            evs.append({"ev": "RefList", "case": case, "res": iv["res"], "names": lnames,
+                        "locnames": sorted({lf["name"] for lf in a.get("locfiles", [])})})
         evs.append({"ev": "Done", "case": case})
     return evs, nfiles
 
